@@ -47,16 +47,20 @@ count_value = st.one_of(
 )
 
 
+exact_count = st.one_of(st.just(0.0), st.integers(0, 60).map(float), st.integers(0, 40).map(lambda i: i / 2.0))
+exact_weight = st.one_of(st.integers(0, 30).map(float), st.integers(1, 30).map(float), st.integers(0, 20).map(lambda i: i / 4.0))
+
+
 def array_strategy(n, elem=count_value):
     return st.lists(elem, min_size=n, max_size=n)
 
 
 @st.composite
-def counts_array(draw, nb, npatch, auto, sparse=None):
+def counts_array(draw, nb, npatch, auto, sparse=None, elem=count_value):
     """counts array (nb, np, np) as nested lists; auto -> upper triangular"""
     if sparse is None:
         sparse = draw(st.sampled_from([0.0, 0.0, 0.3, 0.7, 1.0]))
-    flat = draw(array_strategy(nb * npatch * npatch))
+    flat = draw(array_strategy(nb * npatch * npatch, elem))
     mask = draw(array_strategy(npatch * npatch, floats(0.0, 1.0)))
     arr = np.array(flat, dtype=float).reshape(nb, npatch, npatch)
     m = (np.array(mask).reshape(npatch, npatch) >= sparse).astype(float)
@@ -70,17 +74,17 @@ weight_value = st.one_of(st.integers(0, 40).map(float), floats(1e-3, 100.0))
 
 
 @st.composite
-def sumw_arrays(draw, nb, npatch, auto):
-    w1 = np.array(draw(array_strategy(nb * npatch, weight_value))).reshape(nb, npatch)
+def sumw_arrays(draw, nb, npatch, auto, elem=weight_value):
+    w1 = np.array(draw(array_strategy(nb * npatch, elem))).reshape(nb, npatch)
     if auto:
         w2 = w1.copy()
     else:
-        w2 = np.array(draw(array_strategy(nb * npatch, weight_value))).reshape(nb, npatch)
+        w2 = np.array(draw(array_strategy(nb * npatch, elem))).reshape(nb, npatch)
     return w1.tolist(), w2.tolist()
 
 
 @st.composite
-def normalised_counts_case(draw, binning=None, npatch=None, auto=None, min_patches=1, max_patches=6, positive_weights=False):
+def normalised_counts_case(draw, binning=None, npatch=None, auto=None, min_patches=1, max_patches=6, positive_weights=False, exact=False):
     if binning is None:
         binning = draw(binning_case())
     nb = len(binning["edges"]) - 1
@@ -88,8 +92,8 @@ def normalised_counts_case(draw, binning=None, npatch=None, auto=None, min_patch
         npatch = draw(st.integers(min_patches, max_patches))
     if auto is None:
         auto = draw(st.booleans())
-    counts = draw(counts_array(nb, npatch, auto))
-    w1, w2 = draw(sumw_arrays(nb, npatch, auto))
+    counts = draw(counts_array(nb, npatch, auto, elem=exact_count if exact else count_value))
+    w1, w2 = draw(sumw_arrays(nb, npatch, auto, elem=exact_weight if exact else weight_value))
     if positive_weights:
         w1 = (np.array(w1) + 1.0).tolist()
         w2 = (np.array(w2) + 1.0).tolist() if not auto else w1
@@ -100,14 +104,15 @@ SUBSETS = [s for s in (("dr",), ("rd",), ("rr",), ("dr", "rd"), ("dr", "rr"), ("
 
 
 @st.composite
-def corrfunc_case(draw, subsets=SUBSETS, min_patches=1, max_patches=6, positive_weights=False, **bkw):
+def corrfunc_case(draw, subsets=SUBSETS, min_patches=1, max_patches=6, positive_weights=False, exact=False, auto=None, **bkw):
     binning = draw(binning_case(**bkw))
     npatch = draw(st.integers(min_patches, max_patches))
-    auto = draw(st.booleans())
+    if auto is None:
+        auto = draw(st.booleans())
     present = draw(st.sampled_from(subsets))
     out = {"binning": binning, "npatch": npatch, "auto": auto, "present": list(present)}
     for kind in ("dd",) + tuple(present):
-        out[kind] = draw(normalised_counts_case(binning=binning, npatch=npatch, auto=auto, positive_weights=positive_weights))
+        out[kind] = draw(normalised_counts_case(binning=binning, npatch=npatch, auto=auto, positive_weights=positive_weights, exact=exact))
     return out
 
 
